@@ -657,7 +657,7 @@ class Exec(object):
             "ops": len(self.program["ops"]),
             "shape": "|".join(self.shape) + "|buf%d" % self.disk.bufsize,
             "nontrivial": nontrivial,
-            "sim": {"midi_ticks": int(self.ticks), "bytes_written_to_simdisk": self.disk.bytes_written, "bytes_read_from_simdisk": self.disk.bytes_read, "raw_io_calls": self.disk.raw_calls, "file_operations": self.file_ops},
+            "sim": {"runs_with_fault_config_" + str(self.cfg.get("fault", "none")): 1, "midi_ticks": int(self.ticks), "bytes_written_to_simdisk": self.disk.bytes_written, "bytes_read_from_simdisk": self.disk.bytes_read, "raw_io_calls": self.disk.raw_calls, "file_operations": self.file_ops},
             "digest": self.trace.digest(),
             "states": [],
         }
